@@ -35,6 +35,8 @@ def run(ctx):
     # ------------------------------------------------------------------ Leg B
     exe = ctx.harness("sess_drv", ["session/sess_drv.cpp"])
     jobs = sesslib.binding_runs(q)
+    if os.environ.get("VERIF_C06_JOBS"):                   # development aid: regex over "label arg arg ..."
+        jobs = [j for j in jobs if re.search(os.environ["VERIF_C06_JOBS"], j[0] + " " + " ".join(map(str, j[1])))]
     sesslib.run_binding(ctx, exe, jobs)
     ctx.extra["rule"] = ("executions = Reset-delimited request histories run against the real session code; events = trace lines "
                          "accepted by TLC; distinct = distinct (event, operation, outcome-class) signatures seen in the traces")
